@@ -21,8 +21,12 @@ CHECKS = [
   "text": "z3 proves for all data, parameters and k>0 that the residual _fit hands to the optimiser (abscissa k*x, contact point k*cp) equals the k=1 residual at E*k^p (p=3/2 paraboloid, 2 cone/pyramid), i.e. both least-squares problems coincide up to the stated bijection; on every path of the real _fit the reported contact point/xmin/xmax/fit column are in measured units; and in every optimiser call of an absolute, relative-cp (4 passes) or plateau (n+1) fit the initial contact point is exactly k*cp_user while the caller's object is unchanged.",
   "note": "reals; optimiser equivariance (that MINPACK reaches the mapped minimiser) outside; stubs as C04/C05",
   "technique": SYMX},
+ {"id": "C13", "level": "other",
+  "text": "User models are quantified over by an uninterpreted, position-sensitive model_func registered through the real NaniteFitModel: z3 shows for every abscissa array of length N<=4 of either orientation that the default wrappers return f(delta) / rev(f(rev(delta))), call f only with approach-ordered data, leave inputs unmodified and that the default residual is (force-model)*weights; for each shipped model_func (NRA) translation covariance, baseline additivity, linear modulus scaling, the continuity bound at contact, monotonicity in depth on (0,R] and zero residual on self-generated data.",
+  "note": "reals; user model = uninterpreted function (no side effects); Clifford monotonicity not decided and not claimed; depth beyond tip radius outside",
+  "technique": SYMX},
 ]
 _PENDING = "check not built yet in this round (planned in DESIGN.md section 4)"
 NOT_APPLICABLE = [
  {"property_id": "C01", "reason": "recovery of generating parameters is a statement about MINPACK/Nelder-Mead convergence (iterative compiled floating point, data-dependent trip count, noise): not encodable for a solver; stubbing the optimiser would assume the conclusion. Optimiser-independent parts are decided under C04/C05/C11/C13."},
-] + [{"property_id": f"C{i:02d}", "reason": _PENDING} for i in range(3, 21) if i not in (4, 5, 10, 11)]
+] + [{"property_id": f"C{i:02d}", "reason": _PENDING} for i in range(3, 21) if i not in (4, 5, 10, 11, 13)]
